@@ -117,6 +117,7 @@ fn collect_bound<L: SimLang>(re: &RecExpr<L>, out: &mut Vec<Slot>) {
 }
 
 pub fn check_extraction<L: SimLang, N: Analysis<L>>(s: &mut Sess<L, N>, kind: SimCost, rng: &mut Rng, out: &mut Outcome, at: usize) -> Option<Violation> {
+    let _ph = crate::exec::phase("C06");
     let oracle = m_cost(&s.eg, kind);
     let ex = Extractor::<L, SimCostFn>::new(&s.eg, SimCostFn(kind));
     let ids = s.eg.ids();
